@@ -100,6 +100,7 @@ PIPE_OPTS = {
     "round_identity": True,  # rounding size is outside the rendering claims (C01/C07 decide rounding)
     "assume_positive_area": True,
     "axioms": ("pythagoras",),  # sin^2+cos^2=1: a rotation is never singular
+    "sym_hash": True,  # dict keys holding symbolic numbers compare by solver-decided equality
 }
 
 
